@@ -1090,6 +1090,8 @@ class Exec:
         key = ("const", mod.name, name)
         if key in self.sym_names:
             return self.sym_names[key]
+        if key in self.shared:
+            return self.shared[key]
         fr = Frame(mod, fname=f"<module {mod.name}>")
         saved = self.pure
         try:
@@ -1098,6 +1100,8 @@ class Exec:
             self.pure = saved
         if self.is_concrete(v) or isinstance(v, (ClassRef, ExternalRef, FuncRef, EnumVal)):
             self.sym_names[key] = v
+        elif isinstance(v, (HObj, HList, HDict)):
+            self.shared[key] = v  # one object per path (module-level singletons such as context.builtin)
         return v
 
     def external_module(self, name):
@@ -1185,12 +1189,35 @@ class Exec:
                 if isinstance(src, HDict) and src.concrete is not None:
                     d.update(src.concrete)
                     continue
+                if isinstance(src, HDict) and all(kk is None for kk in node.keys):
+                    return self.dict_union([self.eval(vv, frame) for vv in node.values])
                 raise Unsupported("dict ** of symbolic mapping")
             kv = self.eval(k, frame)
             if not self.is_concrete(kv):
                 raise Unsupported("dict literal with symbolic key")
             d[kv] = self.eval(v, frame)
         return HDict(concrete=d)
+
+    def dict_union(self, ds):
+        """{**a, **b, ...} of symbolic dicts: later mappings win."""
+        acc = None
+        for d in ds:
+            if not isinstance(d, HDict):
+                raise Unsupported("dict ** of non-dict")
+            if d.concrete is not None:
+                if d.concrete:
+                    raise Unsupported("dict ** mixing concrete and symbolic mappings")
+                continue
+            if acc is None:
+                acc = HDict(ksort=d.ksort, vkind=d.vkind, has=d.has, val=d.val)
+                continue
+            if (acc.ksort, acc.vkind) != (d.ksort, d.vkind):
+                raise Unsupported("dict ** of differently typed mappings")
+            k = z3.Const("k!u", ELEM_SORT[d.ksort])
+            has = z3.Lambda([k], z3.Or(z3.Select(acc.has, k), z3.Select(d.has, k)))
+            val = z3.Lambda([k], z3.If(z3.Select(d.has, k), z3.Select(d.val, k), z3.Select(acc.val, k)))
+            acc = HDict(ksort=d.ksort, vkind=d.vkind, has=has, val=val)
+        return acc if acc is not None else HDict(concrete={})
 
     def ex_JoinedStr(self, node, frame):
         parts = []
@@ -1353,6 +1380,19 @@ class Exec:
             if isinstance(b, bool):
                 return True if b else self.to_bool_value(z3.Not(a))
             return SBool(z3.Implies(a, b))
+        if self.pure and isinstance(node.func, ast.Name) and node.func.id in ("forall", "exists") and len(node.args) == 1 and isinstance(node.args[0], ast.Lambda):
+            lam = node.args[0]
+            names = [a.arg for a in lam.args.args]
+            self.qn = getattr(self, "qn", 0) + 1
+            bound = [z3.Int(f"{n}?{self.qn}") for n in names]
+            fr = Frame(frame.mod, parent=frame, cls=frame.cls, fname=frame.fname)
+            fr.old = getattr(frame, "old", None)
+            for n, b in zip(names, bound):
+                fr.locals[n] = SInt(b)
+            body = self.truth(self.eval(lam.body, fr))
+            if isinstance(body, bool):
+                return body
+            return SBool(z3.ForAll(bound, body) if node.func.id == "forall" else z3.Exists(bound, body))
         if self.pure and isinstance(node.func, ast.Name) and node.func.id == "ite" and len(node.args) == 3:
             c = self.truth(self.eval(node.args[0], frame))
             if isinstance(c, bool):
